@@ -100,14 +100,18 @@ def _rand_tree(rng, depth=0):
     names = ["manifest", "application", "activity", "intent-filter", "action", "data", "uses-sdk", "meta-data", "a", "b1", "x_y", "t.u"]
     e = W.Elem(rng.choice(names))
     for _ in range(rng.randint(0, 3)):
-        kind = rng.choice(["str", "int", "hex", "bool", "ref", "dimen", "float"])
+        kind = rng.choice(["str", "int", "hex", "bool", "ref", "dimen", "float", "str", "int", "attr", "fraction", "argb8", "rgb8", "argb4", "rgb4"])
         v = {"str": lambda: rng.choice(["", "hello", "com.example.App", ".Main", "üñí", "a b", "x" * 40, "\U0001F600z", "\u65e5" * 50, "\xe9" * 100, "x" * 200,
                                          "\u65e5" * 130]),
              "int": lambda: rng.choice([0, 1, -1 & 0xFFFFFFFF, 0x7FFFFFFF, 0x80000000, rng.randrange(1 << 32)]),
              "hex": lambda: rng.randrange(1 << 32), "bool": lambda: rng.random() < 0.5,
              "ref": lambda: rng.choice([0x7F010001, 0x01010003, rng.randrange(1 << 32)]),
              "dimen": lambda: (rng.randrange(1 << 24) << 8) | (rng.randrange(4) << 4) | rng.randrange(6),
-             "float": lambda: struct.unpack("<I", struct.pack("<f", rng.choice([0.0, 1.5, -2.25, 1e10])))[0]}[kind]()
+             "float": lambda: struct.unpack("<I", struct.pack("<f", rng.choice([0.0, 1.5, -2.25, 1e10])))[0],
+             "attr": lambda: rng.choice([0x01010003, 0x7F040001]),
+             "fraction": lambda: (rng.randrange(1 << 24) << 8) | (rng.randrange(4) << 4) | rng.randrange(2),
+             "argb8": lambda: rng.randrange(1 << 32), "rgb8": lambda: rng.randrange(1 << 32), "argb4": lambda: rng.randrange(1 << 32),
+             "rgb4": lambda: rng.choice([0xFFFFFFFF, 0xFF112233, rng.randrange(1 << 32)])}[kind]()
         ns = rng.choice([None, W.ANDROID_NS, "http://example.com/ns"])
         nm = rng.choice(["name", "value", "label", "minSdkVersion", "exported", "k%d" % rng.randint(0, 9)])
         if not any(a.name == nm and a.ns == ns for a in e.attrs):
